@@ -1,11 +1,12 @@
 import ClipVerif.Proofs.C09
+import ClipVerif.Proofs.Wind
 /-
 C09 — open subject paths are cut exactly at the clip region boundary.  Proved: the open-edge
 contribution test equals the keep predicate on the true winding numbers (all clip types and fill
 rules); the sweep's handling of open edges is explored by the search with the 1-D coverage oracle.
 -/
 namespace C09
-open Gen Spec
+open Gen Spec Model
 
 /-- Positive / Negative / NonZero: counts are the winding numbers themselves -/
 theorem contributing_open_correct (ct fr : Nat) (wS wC : Int)
@@ -19,5 +20,35 @@ theorem contributing_open_correct_evenodd (ct : Nat) (wS wC : Int) (hct : ct = 1
   exact Proofs.C09.contributing_open_correct_evenodd ct wS wC hct
 
 example : clipperBase_isContributingOpen (mkEng 1 1) (mkOpenEdge 0 1) = true := by decide
+
+/-! ### Winding counts of open edges (model `Model.Wind`, tied by the `wind-corr` stage) -/
+
+/-- open edges (`setWindCountForOpenPathEdge`, NonZero / Positive / Negative): the counts are the
+    winding numbers of the closed subject and of the clip edges to the left -/
+theorem setWindCount_open_correct (fr : Nat) (left : List Active) (e : Active)
+    (hfr : fr = 1 ∨ fr = 2 ∨ fr = 3) (hwf : ∀ a ∈ left, WF a)
+    (hclip : ∀ a ∈ left, getPolyType a = 1 → isOpen a = false)
+    (h0 : e.windCount = 0 ∧ e.windCount2 = 0) :
+    (setWindCountOpen fr left e).windCount = windRight 0 left ∧
+    (setWindCountOpen fr left e).windCount2 = windRight 1 left := by
+  exact Proofs.Wind.setWindCount_open_correct fr left e hfr hwf hclip h0
+
+/-- open edges, EvenOdd: the counts are the parities -/
+theorem setWindCount_open_correct_evenodd (left : List Active) (e : Active)
+    (hwf : ∀ a ∈ left, WF a) (hclip : ∀ a ∈ left, getPolyType a = 1 → isOpen a = false) :
+    (setWindCountOpen 0 left e).windCount = ((countClosed 0 left : Nat) : Int) % 2 ∧
+    (setWindCountOpen 0 left e).windCount2 = ((countClosed 1 left : Nat) : Int) % 2 := by
+  exact Proofs.Wind.setWindCount_open_correct_evenodd left e hwf hclip
+
+/-- open insertion followed by the open contribution test: kept exactly when `keepOpen` of the
+    true winding numbers says so -/
+theorem inserted_open_edge_contributes_iff_keep (ct fr : Nat) (left : List Active) (e : Active)
+    (hct : ct = 1 ∨ ct = 2 ∨ ct = 3) (hfr : fr = 1 ∨ fr = 2 ∨ fr = 3)
+    (hwf : ∀ a ∈ left, WF a) (hclip : ∀ a ∈ left, getPolyType a = 1 → isOpen a = false)
+    (heo : isOpen e = true) (hes : getPolyType e = 0) (h0 : e.windCount = 0 ∧ e.windCount2 = 0) :
+    clipperBase_isContributingOpen (mkEng ct fr) (setWindCountOpen fr left e) =
+      keepOpen ct fr (windRight 0 left) (windRight 1 left) := by
+  have _ := heo; have _ := hes
+  exact Proofs.Wind.inserted_open_edge_contributes_iff_keep ct fr left e hct hfr hwf hclip h0
 
 end C09
